@@ -253,16 +253,26 @@ def register_dataclass_type_with_jax_tree_util(data_class):
         constructable from keyword arguments corresponding to the members exposed
         in instance.__dict__.
     """
+    def _is_static(v):
+        # Python scalars and callables (num_dim of a ConstantFactor, the control function of an
+        # NN-controlled conditional) are static metadata, not array leaves.
+        return isinstance(v, (int, float, str)) or callable(v)
+
     def flatten(d):
         # (values, keys) of the instance attributes, sorted by name (jax.util.unzip2 is gone in current JAX)
         items = sorted(d.__dict__.items())
-        return tuple(v for _, v in items), tuple(k for k, _ in items)
+        static = tuple((k, v) for k, v in items if _is_static(v))
+        dynamic = tuple((k, v) for k, v in items if not _is_static(v))
+        return tuple(v for _, v in dynamic), (tuple(k for k, _ in dynamic), static)
 
-    def unflatten(keys, values):
+    def unflatten(aux, values):
         # Only dataclass fields go back into the constructor; cached attributes that are not fields
         # (e.g. lnZ and mu of a measure after a query) are dropped and recomputed lazily.
+        keys, static = aux
         fields = data_class.__dataclass_fields__
-        return data_class(**{k: v for k, v in zip(keys, values) if k in fields})
+        kwargs = {k: v for k, v in zip(keys, values) if k in fields}
+        kwargs.update({k: v for k, v in static if k in fields})
+        return data_class(**kwargs)
 
     try:
         jax.tree_util.register_pytree_node(
